@@ -53,7 +53,7 @@ def main():
             max(5.0, case.get("timeout", 120.0) - 3.0), exit=False)
         t0 = time.time()
         try:
-            res = mod.run_case(case)
+            res = _run_ambient(mod, case)
         except MonitorAbort as e:
             res = {"verdict": "violated", "sig": "monitor-abort",
                    "why": "MonitorAbort: %s" % e}
@@ -105,6 +105,41 @@ def main():
         delta = STATE.snapshot_counts() - before
         res["mon"] = {k: v for k, v in delta.items() if v}
         emit(res)
+
+
+def _run_ambient(mod, case):
+    """Run one case under a varied *ambient* state of the process - things no argument
+    carries: the thread the call is made from (a seventh of the cases run in a fresh non-main
+    thread, as a GUI or a thread pool would call the library), and NumPy's floating-point
+    error mode (a ninth run under np.errstate(all="ignore"), the mode many scripts set
+    globally).  Results must not depend on either."""
+    import numpy as np
+    cid = int(case.get("id", 0))
+    mode = os.environ.get("VF_AMBIENT", "1")
+
+    def call():
+        if mode == "1" and cid % 9 == 4:
+            with np.errstate(all="ignore"):
+                return mod.run_case(case)
+        return mod.run_case(case)
+    if mode == "1" and cid % 7 == 3 and not case.get("fresh"):
+        import threading
+        box = {}
+
+        def target():
+            try:
+                box["res"] = call()
+            except BaseException as e:          # re-raised in the main thread below
+                box["exc"] = e
+        t = threading.Thread(target=target, name="vf-case-thread")
+        t.start()
+        t.join()
+        if "exc" in box:
+            raise box["exc"]
+        from vf.monitors import STATE as _ST
+        _ST.count["ambient:non-main-thread"] += 1
+        return box["res"]
+    return call()
 
 
 def _default(o):
